@@ -335,8 +335,10 @@ Print Assumptions C07_import_order_refuted.
 (** What holds, per file (partial: the directory-level statement additionally needs the file order,
     refuted above for Flyway; comments other than whole "--" lines — block and '#' comments — are
     covered by the tie only): if every statement the source reader returns has [import_stmt_ok]
-    (its comments are whole "--" lines, its text without the trailing ';' is closed for the generic
-    scanner), the imported file is read back, by the atlas reader, as the same statements. *)
+    (its comments are whole "--" lines; its text without ONE trailing ';' — the only thing the
+    import trims, C07_import_cmd_text — is [scan_closed_semi] for the generic scanner: it may end
+    in white space or in the line break that ends a trailing comment), the imported file is read
+    back, by the atlas reader, as the same statements. *)
 Theorem C07_import_file_partial : forall F now oldname newname content ss name c,
   read F opts_generic content = RStmts ss ->
   forallb import_stmt_ok ss = true ->
@@ -359,6 +361,60 @@ Example C07_import_file_nonvacuous :
   | _ => false
   end = true.
 Proof. vm_compute. reflexivity. Qed.
+
+(** The text transformation of the import, and that the theorem above covers statements that END
+    IN A COMMENT.  (1) The command of an imported statement is its comments, each ended by a
+    newline, followed by its text with strings.TrimSuffix(text, ";") applied — nothing else is
+    trimmed.  (2) The condition of C07_import_file_partial is weaker than [scan_closed] of that
+    command: a trailing line break is allowed.  (3) Non-vacuity on the five tails
+    (line comment / block comment / delimiter inside the comment / blank lines before the
+    terminator, comment after the terminator): all six statements of [w_tails] satisfy
+    [import_stmt_ok], four of them are NOT [scan_closed] (not trimmed at the end), and the
+    imported file reads back the source statements.  (4) Sensitivity: had the import also applied
+    strings.TrimSpace (a counterfactual, FmtRefuted.import_cmd_trimspace), the formatter's ";"
+    would land inside the comment and the same file would read back other statements. *)
+Theorem C07_import_cmd_text :
+  (forall s, import_cmd s = import_gap s ++ trim_suffix (Text s) delimiter)
+  /\ (forall s, forallb import_comment_ok (Comments s) = true ->
+        scan_closed opts_generic delimiter (trim_suffix (Text s) delimiter) = true ->
+        import_stmt_ok s = true)
+  /\ (exists ss name c,
+        read FGolangMigrate opts_generic w_tails = RStmts ss /\ List.length ss = 6%nat
+        /\ forallb import_stmt_ok ss = true
+        /\ map (fun s => scan_closed opts_generic delimiter (trim_suffix (Text s) delimiter)) ss
+           = [false; false; false; false; true; true]
+        /\ import_file FGolangMigrate [] w_tails_name w_tails_name w_tails = Some (name, c)
+        /\ texts (of_scan (Stmts c)) = Some (map Text ss)
+        /\ texts (of_scan (Stmts (atlas_content (import_plan_trimspace [49%N] [97%N] ss)))) <> Some (map Text ss)).
+Proof.
+  split; [intros s; reflexivity|]. split.
+  - intros s Hc Hs. unfold import_stmt_ok. rewrite Hc. cbn [andb].
+    apply scan_closed_semi_of_closed; [reflexivity|exact Hs].
+  - eexists. eexists. eexists. split; [vm_compute; reflexivity|].
+    split; [vm_compute; reflexivity|]. split; [vm_compute; reflexivity|]. split; [vm_compute; reflexivity|].
+    split; [vm_compute; reflexivity|]. split; [vm_compute; reflexivity|]. vm_compute. discriminate.
+Qed.
+Print Assumptions C07_import_cmd_text.
+
+(** The Goose reader on hand-made files (stage readers, required statement lists).  Full statement:
+    GooseFile.StmtDecls ends every statement where pressly/goose does — at a line whose last
+    non-comment word ends in ';'.  It is FALSE both ways: a ';' followed by a comment does not end
+    the statement (the next one is glued to it: finding goose-comment-after-semicolon), and a ';'
+    that closes a line comment does (the real terminator on the next line becomes a statement of
+    its own: one more instance of goose-line-split).  The generic scanner (golang-migrate, Flyway,
+    DBMate, Liquibase readers) reads the same bodies as goose does; what holds for the Goose
+    reader on formatter-written files is C07_goose_dbmate_reader_except. *)
+Theorem C07_goose_comment_terminator_refuted :
+  texts (read FGoose opts_generic w_goose_trailing)
+    = Some [bs ("SELECT 1;  -- trailing" ++ nl ++ "SELECT 2;")%string]
+  /\ texts (read FGoose opts_generic w_goose_comment_semi)
+    = Some [bs "SELECT 1 -- c;"%string; bs ";"%string; bs "SELECT 2;"%string]
+  /\ texts (read FGolangMigrate opts_generic (bs ("SELECT 1;  -- trailing" ++ nl ++ "SELECT 2;" ++ nl)%string))
+    = Some [bs "SELECT 1;"%string; bs "SELECT 2;"%string]
+  /\ texts (read FGolangMigrate opts_generic (bs ("SELECT 1 -- c;" ++ nl ++ ";" ++ nl ++ "SELECT 2;" ++ nl)%string))
+    = Some [bs ("SELECT 1 -- c;" ++ nl ++ ";")%string; bs "SELECT 2;"%string].
+Proof. repeat split; vm_compute; reflexivity. Qed.
+Print Assumptions C07_goose_comment_terminator_refuted.
 
 (** The bridge from planner output to [scan_closed] (partial).  Full statement: every Cmd the three
     planners emit is [scan_closed] for its dialect's scanner whenever its identifiers and literals
